@@ -747,3 +747,35 @@ def r_range_constants(r, prog):
         else:
             r.finding('range-constant:%s' % k, '-', '%s evaluates to %s, expected %d' % (k, c['val'], v))
     r.floor(8)
+
+
+def r_duplicate_keys(r, prog):
+    fns = [f for f in prog.fns.values() if f.crate.tag == 'slice_codec' and re.search(
+        r'DecodeFrom for (std::collections::hash::map::HashMap<K, V>|alloc::collections::btree::map::BTreeMap<K, V>)>::decode_from$', f.path)]
+    if len(fns) < 2:
+        raise AnchorMissing('map decoders (found %d)' % len(fns))
+    for f in fns:
+        ins = [c for c in f.calls() if c.name() == 'insert']
+        if not ins:
+            r.finding('map-decoder-no-insert:%s' % f.path, f.span, '%s does not insert the decoded entries' % f.path)
+            continue
+        good = False
+        for sw in enum_switches(f, 'core::option::Option'):
+            if not any(c is ins[0] for c, _ in origin_calls(f, sw['place'])):
+                continue
+            some = arm(sw, 1)
+            none = arm(sw, 0)
+            reach = f.reachable(some, blocked=[none])
+            errs = [a for a in aggregates(prog, 'core::result::Result', 'Err') if a['fn'] is f and a['bb'] in reach]
+            loops = f.natural_loops()
+            head = loops[0][0] if loops else None
+            # after a duplicate the loop must not continue and no Ok may be produced
+            cont = head is not None and head in f.reachable(some, blocked=[none] + [a['bb'] for a in errs])
+            oks = [a for a in aggregates(prog, 'core::result::Result', 'Ok') if a['fn'] is f and a['bb'] in f.reachable(some, blocked=[none] + [a['bb'] for a in errs])]
+            if errs and not cont and not oks and some != none:
+                good = True
+        if good:
+            r.ok('%s: a duplicate key ends decoding with an error' % f.path)
+        else:
+            r.finding('duplicate-key-accepted:%s' % f.path, ins[0].span, '%s does not turn a duplicate key (insert returned Some) into an error on every path' % f.path)
+    r.floor(2)
